@@ -151,6 +151,14 @@ example :
     Detect.tldOccurrence U w2 tld (w2.length + 1) (Detect.findSub w2 tld) = some 4 := by
   decide
 
+/-- ... and it finds one **exactly when** there is one: for a domain of the table, the search comes back with a position if and only if
+some occurrence of the domain in the string ends a host name (the loop runs out of neither candidates nor steps before it has seen them
+all) -/
+theorem C13_website_found_iff (U : Detect.UEnv) (w tld : CPs) (hm : tld ∈ Generated.Tables.tldList) :
+    (Detect.tldOccurrence U w tld (w.length + 1) (Detect.findSub w tld)).isSome = true ↔
+      ∃ k, Detect.OccursAt w tld k ∧ Detect.endsHost U w tld k = true :=
+  Detect.tldSearch_finds_iff U w tld hm
+
 /-- **nothing outlives a call except the objects a caller holds** (regenerated from the four library packages): no module-level or
 class-level mutable container, no cache decorator or cache call (`functools.lru_cache`, `cache`), no mutable or computed default
 argument and no `global` statement anywhere in `lib_guesser`, `lib_trainer`, `lib_scorer`, `lib_princeling`.  The models of this file are
